@@ -400,3 +400,91 @@ Proof.
         (conj bulk_unchanged_picard (conj bulk_unchanged_picard_log
         (conj bulk_unchanged_anderson (conj bulk_unchanged_anderson_log bulk_unchanged_newton))))).
 Qed.
+
+(** ** specifications taken from a profile ([DFTSpecifications::moles_from_profile] / [total_moles_from_profile],
+    used by [PlanarInterface::from_tanh / from_pdgt (.., fix_equimolar_surface = true)]): the particle numbers of
+    the profile they are computed from — the INITIAL profile when the entry points are used as documented *)
+Definition moles_from_profile (G : nat) (w : nat -> R) (rho0 : nat -> nat -> R) : spec := Moles (moles G w rho0).
+Definition total_moles_from_profile (S G : nat) (w : nat -> R) (rho0 : nat -> nat -> R) : spec :=
+  TotalMoles (sumf (moles G w rho0) S).
+
+(** a stationary point reached with such a specification contains the particle numbers of the initial profile,
+    whatever the iteration did in between (this is what "fix the equimolar surface" means) *)
+Theorem moles_from_profile_preserved S G w e rho rhob rho0 :
+  nondegenerate S G w e rhob (moles_from_profile G w rho0) ->
+  stationary S G w e rho rhob (moles_from_profile G w rho0) ->
+  forall i, (i < S)%nat -> moles G w rho i = moles G w rho0 i.
+Proof. intros Hn Hs. exact (spec_fixed_point S G w e rho rhob _ Hn Hs). Qed.
+
+Theorem total_moles_from_profile_preserved S G w e rho rhob rho0 :
+  nondegenerate S G w e rhob (total_moles_from_profile S G w rho0) ->
+  stationary S G w e rho rhob (total_moles_from_profile S G w rho0) ->
+  sumf (moles G w rho) S = sumf (moles G w rho0) S.
+Proof. intros Hn Hs. exact (spec_fixed_point S G w e rho rhob _ Hn Hs). Qed.
+
+(** a specification taken from a profile is met by that profile *)
+Theorem from_profile_met_initially S G w rho0 :
+  spec_met S G w rho0 (moles_from_profile G w rho0) /\ spec_met S G w rho0 (total_moles_from_profile S G w rho0).
+Proof. split; simpl; auto. Qed.
+
+(** ** reading and writing back the bulk state in [DFTProfile::solve] (segments vs components)
+
+    [solve] reads the bulk densities per SEGMENT, rho_b s = partial_density (component_index s), hands them to the
+    solver and afterwards rebuilds the bulk state by
+        for (s, r) in bulk_density.enumerate() { moles.set(component_index[s], r * V) }      (V = 1)
+    [ci] = component_index (S segments, C components). *)
+Definition gather (ci : nat -> nat) (pd : nat -> R) : nat -> R := fun s => pd (ci s).
+
+Fixpoint write_back (ci : nat -> nat) (rb : nat -> R) (S : nat) (m0 : nat -> R) : nat -> R :=
+  match S with
+  | O => m0
+  | Datatypes.S k => fun c => if Nat.eqb c (ci k) then rb k else write_back ci rb k m0 c
+  end.
+
+(** if the segment densities the solver returns are consistent with component densities [f] (every segment of
+    component c carries f c) and every component has a segment, the rebuilt bulk state has exactly the densities f *)
+Theorem write_back_gather ci rb f S m0 c :
+  (forall s, (s < S)%nat -> rb s = f (ci s)) -> (exists s, (s < S)%nat /\ ci s = c) ->
+  write_back ci rb S m0 c = f c.
+Proof.
+  induction S as [|k IH]; intros Hrb [s [Hs Hc]]; [lia|]. simpl.
+  destruct (Nat.eqb c (ci k)) eqn:E.
+  - apply Nat.eqb_eq in E. rewrite Hrb by lia. now rewrite E.
+  - apply Nat.eqb_neq in E. apply IH.
+    + intros s' Hs'. apply Hrb. lia.
+    + exists s. split; [|assumption]. destruct (Nat.eq_dec s k) as [->|Hne]; [congruence|lia].
+Qed.
+
+(** default specification, end to end: read per segment, no stage changes the segment densities
+    ([bulk_unchanged_all]), write back — the bulk state of the profile is unchanged *)
+Theorem bulk_roundtrip ci pd S m0 c :
+  (exists s, (s < S)%nat /\ ci s = c) -> write_back ci (gather ci pd) S m0 c = pd c.
+Proof. intros H. apply write_back_gather; [reflexivity|assumption]. Qed.
+
+(** components without a segment keep their old entry *)
+Theorem write_back_untouched ci rb S m0 c :
+  (forall s, (s < S)%nat -> ci s <> c) -> write_back ci rb S m0 c = m0 c.
+Proof.
+  induction S as [|k IH]; intros H; [reflexivity|]. simpl.
+  destruct (Nat.eqb c (ci k)) eqn:E.
+  - apply Nat.eqb_eq in E. exfalso. apply (H k); [lia|congruence].
+  - apply IH. intros s Hs. apply H. lia.
+Qed.
+
+(** the component index matters: writing segment i to component i (for i < C) is wrong as soon as a molecule has
+    more than one segment — witness: two components with 3 + 4 segments (propane / butane in gc-PC-SAFT) *)
+Definition write_back_by_position (rb : nat -> R) (C : nat) (m0 : nat -> R) : nat -> R :=
+  fun c => if Nat.ltb c C then rb c else m0 c.
+
+Theorem write_back_by_position_refuted :
+  exists (ci : nat -> nat) (pd : nat -> R) (m0 : nat -> R),
+    (forall c, (c < 2)%nat -> exists s, (s < 7)%nat /\ ci s = c) /\
+    write_back ci (gather ci pd) 7 m0 1%nat = pd 1%nat /\
+    write_back_by_position (gather ci pd) 2 m0 1%nat <> pd 1%nat.
+Proof.
+  exists (fun s => if Nat.ltb s 3 then 0%nat else 1%nat), (fun c => match c with O => 1 | _ => 2 end), (fun _ => 0).
+  split; [|split].
+  - intros c Hc. destruct c as [|[|c]]; [exists 0%nat|exists 3%nat|lia]; split; simpl; auto; lia.
+  - reflexivity.
+  - unfold write_back_by_position, gather. simpl. lra.
+Qed.
